@@ -99,6 +99,10 @@ ADDENDA2 = {
     "C04": "Also: a counted clone is born open (closed = constant false on every path that registers it).",
     "C05": "Also: where one notify can publish several items but wakes one waiter, consumers pass the wake on (live-CFG baton rule); a counted clone is born open, so the "
            "last-handle disconnect stays reachable.",
+    "C03": "Also: the `valid` count of a claimed run is min(claimed, window_end.saturating_sub(ticket)) in both claim functions.",
+    "C07": "Also: modify closures never replace the cursor list by captured data; the spmc receive forms decide Disconnected only after another look at head/the slot (27 sites shared with C04-5).",
+    "C08": "Also: the closures given to left_right::modify update the subscriber list in place, never by installing a snapshot computed earlier (lost update).",
+    "C10": "Also: every Poll::Pending of the three lock futures follows ListGuard::rearm in the same poll.",
     "C11": "Also: the shard array indexed with `hash & (len-1)` has a power-of-two length by construction on every builder path.",
     "C12": "Also: the stale-while-revalidate arm is entered through the `now >= expires_at` outcome, not through is_expired (which also covers the idle timeout).",
     "C13": "Also: a wholesale reset of the gauge to 0 happens while every shard's write guard is held.",
